@@ -154,6 +154,9 @@ def run(ctx) -> None:
     from .c04 import check_stale_comparator
 
     check_stale_comparator(ctx, "C01.R3")
+    from .c04 import check_step_loop
+
+    check_step_loop(ctx, "C01.R3", "C01.R3")
 
     # ---- R4 ---------------------------------------------------------------------
     gstate = db.cls("runners._shared.types.GraphState")
@@ -265,7 +268,7 @@ def check_bound_class_from_bound_tables(ctx, rule: str) -> None:
     for r in [x for x in cfg.nodes if x.kind == "stmt" and isinstance(x.ast, ast.Return) and _classify_return(x.ast) == "BOUND"]:
         n += 1
         v = r.ast.value.elts[1] if len(r.ast.value.elts) == 2 else None
-        ok = isinstance(v, ast.Subscript) and isinstance(v.value, ast.Attribute) and v.value.attr == "bound" and src(v.value).endswith("inputs.bound")
+        ok = isinstance(v, ast.Subscript) and isinstance(v.value, ast.Attribute) and (v.value.attr == "bound" and src(v.value).endswith("inputs.bound") or v.value.attr == "_bound")
         why = "value read from a bind() table"
         if ok:
             want = f"{src(v.slice)} in {src(v.value)}"
@@ -280,6 +283,26 @@ def check_bound_class_from_bound_tables(ctx, rule: str) -> None:
     # a nested-graph node's own bindings have a BOUND path of their own (the outer graph's merged table does not
     # contain them in every scope, e.g. when a default selection leaves the wrapper out of the computed spec)
     inner = [x for x in cfg.nodes if x.kind == "stmt" and isinstance(x.ast, ast.Return) and _classify_return(x.ast) == "BOUND" and len(x.ast.value.elts) == 2 and any(isinstance(y, ast.Attribute) and y.attr in ("_graph", "graph") and isinstance(y.value, ast.Name) and y.value.id != "graph" for y in ast.walk(x.ast.value.elts[1]))]
+    # ... and that path has precedence over bindings merely *surfaced* from other nested graphs (the merged
+    # inputs.bound of the enclosing graph keeps only the first of two nested graphs binding the same name)
+    if inner:
+        val = {}
+        for t in cfg.nodes:
+            if t.kind == "test" and t.ast is not None:
+                for a in test_atoms(t.ast):
+                    tx = src(a)
+                    if isinstance(a, ast.Call) and dotted(a.func) == "isinstance" and "GraphNode" in tx:
+                        val[tx] = True
+                    if isinstance(a, ast.Compare) and isinstance(a.ops[0], ast.In):
+                        rhs = src(a.comparators[0])
+                        if rhs.endswith("._bound"):
+                            val[tx] = False  # not bound on the enclosing graph itself
+                        elif ("_graph" in rhs or ".graph." in rhs) and rhs.endswith("inputs.bound") and not rhs.startswith("graph."):
+                            val[tx] = True  # bound on the node's own inner graph
+        live = reachable(cfg.entry, specialize(val, cfg))
+        merged = [x for x in cfg.nodes if x.kind == "stmt" and isinstance(x.ast, ast.Return) and _classify_return(x.ast) == "BOUND" and x not in inner and src(x.ast.value.elts[1]).startswith("graph.inputs.bound")]
+        prec = not any(x in live for x in merged)
+        rep.add(rule, f"{gvs.qname}:BOUND-own-inner-before-surfaced", prec, gvs.loc(), "a nested graph node takes the value its own inner graph bound before any binding surfaced from a sibling" if prec else "for a nested graph node the merged table of the enclosing graph is consulted before the node's own inner binding: when two nested graphs bind different objects under one name, the second one receives the first one's object")
     rep.add(rule, f"{gvs.qname}:BOUND-inner-graph-path", bool(inner), gvs.loc(), "values bound on a nested graph are resolved as BOUND from the wrapper's own graph" if inner else "values bound on a nested graph have no BOUND path of their own: where the outer merged table lacks them they fall to the DEFAULT class and are deep-copied (or are not found at all)")
 
 
